@@ -225,6 +225,34 @@ def _program_from_parent(h):
     h.ensure("successor-still-follows-its-parent", child.can_follow(parent) is True, bounded_shape=True)
 
 
+@proof("C09", PRG + ":Program._clear_regrefs", name="Program._clear_regrefs/every-register-ever-created-is-cleared")
+def _clear_regrefs(h):
+    """what the engine's reset relies on: afterwards NO register reference of the program holds a measured value - also the
+    references of modes that were measured and then deleted (a successor segment can still feed their value forward) - and
+    nothing else about the program changes"""
+    ops, prg = h.module(OPS), h.module(PRG)
+    n = (1, 2, 3)[h.eng.choose(3, "modes")]
+    history = ("plain", "deleted-first", "deleted-last", "deleted-and-created")[h.eng.choose(4, "history")]
+    prog = prg.Program(n)
+    with prog.context as q:
+        ops.MeasureHomodyne(0.0) | q[0]
+        if history == "deleted-first" or history == "deleted-and-created":
+            ops.Del | q[0]
+        if history == "deleted-last" and n > 1:
+            ops.Del | q[n - 1]
+        if history == "deleted-and-created":
+            ops.New(1)
+    for k, r in prog.reg_refs.items():
+        r.val = h.real(f"outcome{k}")
+    before = [(k, r.ind, r.active) for k, r in prog.reg_refs.items()]
+    circ = list(prog.circuit)
+    out = h.call(prog._clear_regrefs)
+    h.ensure("no-exception", out.returned, bounded_shape=True)
+    h.ensure("no-register-keeps-a-measured-value", all(r.val is None for r in prog.reg_refs.values()), bounded_shape=True)
+    h.ensure("registers-and-circuit-otherwise-untouched", [(k, r.ind, r.active) for k, r in prog.reg_refs.items()] == before and len(prog.circuit) == len(circ)
+             and all(a is b for a, b in zip(prog.circuit, circ)), bounded_shape=True)
+
+
 # ---------------------------------------------------------------------------------------------
 # par_regref_deps / Operation.__init__ / Command.get_dependencies over the GRAMMAR of parameters: a parameter is a number,
 # a symbolic expression (atoms: measured / free parameters, numbers; built with + * ** and the par_funcs) or an object
